@@ -61,6 +61,9 @@ type Genesis struct {
 	TimeUnix  int64   `json:"time_unix"`
 	Balances  []int64 `json:"balances"` // per account index
 	Dust      []int64 `json:"dust,omitempty"` // per account: balance in a second denomination ("dust")
+	// Third: per account balance in a third denomination ("aaa", sorts before the others) that nothing ever moves:
+	// three-coin balances for the coin-set arithmetic, conservation is checked per denomination
+	Third []int64 `json:"third,omitempty"`
 	KeyTypes  []string `json:"key_types,omitempty"` // per account: "ed" (default) | "secp"
 	// MaxGas > 0 configures a block gas limit (consensus params). The reference model keeps no gas account, so
 	// in such runs only the model-free oracles (replica comparison, crash/replay, invariants) apply.
